@@ -1459,7 +1459,7 @@ fn with_stubs<T>(f: impl FnOnce() -> T) -> T {
 }
 
 pub fn run(ctx: &Ctx) -> Report {
-    let cases_per_worker: u32 = ctx.tier.pick(60_000, 1_200_000);
+    let cases_per_worker: u32 = ctx.tier.pick(60_000, 4_000_000);
     let mut rep = with_stubs(|| {
         common::par_workers(ctx.threads, |w| {
             let mut rep = Report::new(RULE);
